@@ -278,6 +278,8 @@ def run(chk, prog):
     # the one apply subtracts, for even and odd grid sizes: decided under C01 R2; re-evaluated here)
     from .common import reeval
     reeval(chk, prog, "C01", lambda i: i["rule"] == "R2" and "KickMap" in i["site"], "R6", "R6-kick-centre", 6)
+    # ---- R7: "converting it to physical units for output is always defined": index bounds of the look-ups in appendTracks (C17 R7) -------
+    reeval(chk, prog, "C17", lambda i: i["rule"] == "R7", "R7", "R7-track-lookups", 2)
     chk.notes.append("C15: clamping of every assigned coordinate on every CFG path of every applyTo overrider reachable from main, direction agreement of "
                      "particle and grid displacement, damping fixed point. NOT decided: centroid coincidence, ensemble statistics.")
 
